@@ -163,6 +163,8 @@ type c05World struct {
 	shapeEmptyMemSetRecommit bool
 	shapeSingleLeafAbandoned bool
 	shapeTwiceAbandoned      bool
+	shapeIdenticalRecommit   bool
+	padSeq                   int
 	abandoned                map[int64]int // height -> how often a block at that height was abandoned
 }
 
@@ -177,6 +179,9 @@ func (w *c05World) fail(v *simrt.Violation) {
 		}
 		if w.shapeTwiceAbandoned {
 			shape += "+height-abandoned-twice"
+		}
+		if w.shapeIdenticalRecommit {
+			shape += "+identical-recommit-at-reused-height"
 		}
 		if shape == "" {
 			shape = "no-known-shape"
@@ -428,7 +433,20 @@ func (w *c05World) do(op *simrt.Op) {
 			if op.Int(1) == 1 {
 				mode = 1 - mode
 			}
-			w.commit(mode, w.nextHeight(0), p.batch, "recommit-identical")
+			batch, how := p.batch, "recommit-identical"
+			if w.open {
+				// Identical content at a used height: every node is already stored, so
+				// the store deletes that height's version-index entries (fork clean-up)
+				// and writes nothing back. Recorded known shape (a later pass can then
+				// delete leaves the tip still references).
+				w.shapeIdenticalRecommit = true
+			} else {
+				// strict runs re-commit the same writes plus one fresh key
+				w.padSeq++
+				batch = append(append([]simrt.Op(nil), batch...), KVOp([]byte(fmt.Sprintf("mavl-acc-re%03d", w.padSeq)), []byte(fmt.Sprintf("r%d", w.padSeq))))
+				how = "recommit-plus-one-key"
+			}
+			w.commit(mode, w.nextHeight(0), batch, how)
 		}
 	case "prune":
 		// explicit pruning pass at the current tip height (only one pass at a time)
